@@ -130,6 +130,9 @@ pub fn check(rep: &mut Rep, w: &World, c: i128, s: TimeScale, others: bool) {
             Ok(v) => {
                 for (s2, txt) in v {
                     let tol: i128 = if s2 == s { 0 } else if is_dyn(s2) || is_dyn(s) { 30 } else { 0 };
+                    if tol > 0 && s2 == TimeScale::UTC && w.near_utc_discontinuity(t, 100) {
+                        continue; // ET/TDB tolerance makes the UTC reading ambiguous by a whole second
+                    }
                     let want = if s2 == s { Some(c) } else { w.from_tai(t, s2) };
                     let want = match want {
                         Some(x) => x,
